@@ -34,7 +34,7 @@ ASSUMPTIONS = [
     "a tensor that does not influence the integrand may get None or zeros (both accepted)",
 ]
 BUDGET = {"quick": {"worker_timeout": 900, "case_timeout": 120}, "thorough": {"worker_timeout": 3300, "case_timeout": 300}}
-_REQ = {"number_limit_cases": 400, "no_grad_param_cases": 100, "unused_param_cases": 400, "bck_n_cases": 500, "rule_discriminates": 250,
+_REQ = {"extra_late_rebind_histories": 20, "extra_abort_injected": 20, "number_limit_cases": 400, "no_grad_param_cases": 100, "unused_param_cases": 400, "bck_n_cases": 500, "rule_discriminates": 250,
         "second_order_cases": 350, "second_order_linear_param": 200, "inf_limit_cases": 100, "limit_leaf_compared": 700,
         "param_leaf_compared": 1500, "kind_func": 250, "kind_nnmod": 250, "kind_editmod": 250, "tuple_output_cases": 80,
         "mixed_second_order_terms": 300, "mixed_shape_limit_cases": 200}
